@@ -46,7 +46,7 @@ def cache_rules(ctx, rep, P):
     for b in F.bodies:
         if b.promoted is not None or not (b.file.endswith("encode.rs") or b.file.endswith("decode.rs") or b.file.endswith("audio.rs")):
             continue
-        rs = [(i, t) for i, t in b.calls() if re.search(r"std::vec::Vec::<T, A>::resize$", callee_name(t)) and ("Vec<i32>" in t["aty"][0] or "Vec<f64>" in t["aty"][0])]
+        rs = [(i, t) for i, t in b.calls() if re.search(r"std::vec::Vec::<T, A>::resize(_with)?$", callee_name(t)) and ("Vec<i32>" in t["aty"][0] or "Vec<f64>" in t["aty"][0] or "Vec<encode::ChannelCache>" in t["aty"][0])]
         if not rs:
             continue
         clears = [(i, t) for i, t in b.calls() if CLEAR.search(callee_name(t))]
@@ -59,9 +59,13 @@ def cache_rules(ctx, rep, P):
             f = pf.get(i, TOP)
             name = _pname(b, rp)
             grow_only = f is not TOP and any(x[0] == "cmp" and x[1] in ("Lt", "Le", "Gt", "Ge") and "Vec::len" in (str(x[2]) + str(x[3])) and name in (str(x[2]) + str(x[3])) for x in (f or ()))
+            # .. or only ever sized once (`if v.is_empty() { v.resize_with(n, ..) }`): the next frame's different n is ignored
+            empties = [et for _, et in b.calls() if re.search(r"Vec::<T, A>::is_empty$", callee_name(et)) and _same_place(root_place(b, et["a"][0]), rp)]
+            if f is not TOP and empties and any(x[0] == "call-true" and str(x[1]).endswith("Vec::is_empty") for x in (f or ())):
+                grow_only = True
             cleared = any(_same_place(root_place(b, ct["a"][0]), rp) and b.dominates(ci, i) and ci != i for ci, ct in clears)
             rep.check(P + ".cache", "%s: scratch buffer %s is resized unconditionally (or cleared first)" % (strip_generics(b.path), name), cleared or not grow_only, loc_of(b, t), "",
-                      "a reusable scratch buffer is only ever grown (resize behind a test of its own length): after a longer block it keeps the old tail, and whoever takes it as a slice sees stale samples")
+                      "a reusable scratch buffer is only ever grown or only sized once (resize behind a test of its own length / emptiness): after a block of another size it keeps the old length, and whoever takes it as a slice or zips over it sees stale or missing entries")
     rep.floor(P + ".cache", "scratch buffer fills", n, 5)
 
     # ---- recorders in encode_subframe -----------------------------------------------------------------
